@@ -57,8 +57,10 @@ fn run_case(report: &mut Report, c: &Case, verbose: bool) {
     let pname = c.preset.name();
     let (sg, su, st, sd, sm) =
         (c.flags & 1 != 0, c.flags & 2 != 0, c.flags & 4 != 0, c.flags & 8 != 0, c.flags & 16 != 0);
+    // mostly a 30 draw warmup with transformation updates; one history in seven has no warmup at all
+    let num_tune = if c.seed % 7 == 3 { 0 } else { 30 };
     let mut patches: Vec<(&str, J)> = vec![
-        ("num_tune", json!(30)),
+        ("num_tune", json!(num_tune)),
         ("num_draws", json!(25)),
         ("store_gradient", json!(sg)),
         ("store_unconstrained", json!(su)),
@@ -69,6 +71,10 @@ fn run_case(report: &mut Report, c: &Case, verbose: bool) {
         ("adapt_options.mass_matrix_switch_freq", json!(8)),
         ("adapt_options.transform_update_freq", json!(7)),
     ];
+    if c.seed % 3 == 0 && matches!(c.preset, Preset::DiagNuts | Preset::DiagMclmc) {
+        // scales from the draw variance only (rarely used option of the diagonal presets)
+        patches.push(("adapt_options.mass_matrix_options.use_grad_based_estimate", json!(false)));
+    }
     if c.preset.is_nuts() {
         patches.push(("maxdepth", json!(5)));
         if c.target == "funnel" {
@@ -134,10 +140,26 @@ fn run_case(report: &mut Report, c: &Case, verbose: bool) {
         }
     }
     let mut outs: Vec<DrawOut> = vec![];
+    // scales of the transformation in force after every draw (hook read-back; None for the flow presets)
+    let mut scales: Vec<Option<crate::chains::Scales>> = vec![chain.scales()];
     let total = 55u64;
+    // one history in four re-initialises the chain in the middle (a second set_position replaces the transformation
+    // between two draws)
+    let reinit_at: Option<u64> = if c.seed % 4 == 1 && !faulty && dim > 0 { Some(18 + (c.seed / 4) % 12) } else { None };
     for d in 0..total {
+        if reinit_at == Some(d) {
+            let again: Vec<f64> = start.iter().map(|x| x * 0.5 + 0.1).collect();
+            if chain.set_position(&again).is_err() {
+                report.inconclusive("second set_position failed");
+                break;
+            }
+            *scales.last_mut().unwrap() = chain.scales();
+        }
         match chain.draw() {
-            Ok(o) => outs.push(o),
+            Ok(o) => {
+                outs.push(o);
+                scales.push(chain.scales());
+            }
             Err(e) => {
                 if faulty {
                     // an injected fault hit an evaluation the chain cannot retry (C05 / C13 territory)
@@ -156,6 +178,7 @@ fn run_case(report: &mut Report, c: &Case, verbose: bool) {
         return;
     }
     let mut present: HashMap<String, u64> = HashMap::new();
+    let mut last_announced: Option<i64> = None;
     let mut n_div = 0u64;
     let mut n_upd = 0u64;
     for (d, o) in outs.iter().enumerate() {
@@ -254,8 +277,23 @@ fn run_case(report: &mut Report, c: &Case, verbose: bool) {
                 }
             }
         }
+        // every transformation a draw starts from was announced by an update event: on an earlier draw or, when it was
+        // installed between two draws (set_position), on this draw at the latest
+        if let (Some(index), false) = (o.i64("transformation_index"), c.preset.is_flow()) {
+            let event = o.i64("transformation_update_id");
+            if last_announced != Some(index) && event.is_none() {
+                report.violation(
+                    format!("C16:{pname}:transformation_never_announced"),
+                    format!("draw {d} started from transformation {index}, the last announced one is {last_announced:?}, and the draw carries no transformation_update event (re-initialised before draw {reinit_at:?})"),
+                    replay.clone(),
+                );
+            }
+            if event.is_some() {
+                last_announced = event;
+            }
+        }
         // transformation update events <=> the next trajectory runs with another transformation
-        if d >= 1 && d + 1 < outs.len() && types.contains_key("transformation_update_id") {
+        if d >= 1 && d + 1 < outs.len() && types.contains_key("transformation_update_id") && reinit_at != Some(d as u64 + 1) && reinit_at != Some(d as u64) {
             let (a, b) = (o.i64("transformation_index"), outs[d + 1].i64("transformation_index"));
             let upd = o.i64("transformation_update_id");
             if upd.is_some() {
@@ -277,6 +315,18 @@ fn run_case(report: &mut Report, c: &Case, verbose: bool) {
                             replay.clone(),
                         );
                     }
+                }
+            }
+            // independent of the ids: if the scales differ after this draw, the draw must carry the event
+            if let (Some(Some(s0)), Some(Some(s1))) = (scales.get(d), scales.get(d + 1)) {
+                let same = |a: &[f64], b: &[f64]| a.len() == b.len() && a.iter().zip(b).all(|(x, y)| x.to_bits() == y.to_bits());
+                let changed = !(same(&s0.stds, &s1.stds) && same(&s0.mean, &s1.mean) && same(&s0.eig_sqrt, &s1.eig_sqrt) && same(&s0.inner_mu, &s1.inner_mu));
+                if changed && upd.is_none() {
+                    report.violation(
+                        format!("C16:{pname}:scales_changed_without_update_event"),
+                        format!("draw {d}: the scales of the transformation changed (stds {:?} -> {:?}) but the draw carries no transformation_update event", s0.stds, s1.stds),
+                        replay.clone(),
+                    );
                 }
             }
             if upd.is_some() && !c.preset.is_flow() {
